@@ -56,8 +56,8 @@ Print Assumptions C15_replace_congruence.
 (** canonize(): on well-formed trees of fragment 1 (operands of the commutative-associative operators have one width) sorting
     the operands preserves well-formedness, width and the value under every valuation, memory and operator interpretation.
     (Without the one-width condition it does not: the width of an operator node is that of its FIRST operand.) *)
-Theorem C15_canonize_preserves_value : forall (Q : string -> Z -> bool -> bool -> bool) e, wf false Q e = true ->
-  wf false Q (canonize e) = true /\ size (canonize e) = size e /\ forall rho mu iota, eval rho mu iota (canonize e) = eval rho mu iota e.
+Theorem C15_canonize_preserves_value : forall (ac : bool) (Q : string -> Z -> bool -> bool -> bool) e, wf ac Q e = true ->
+  wf ac Q (canonize e) = true /\ size (canonize e) = size e /\ forall rho mu iota, eval rho mu iota (canonize e) = eval rho mu iota e.
 Proof. exact canonize_preserves. Qed.
 Print Assumptions C15_canonize_preserves_value.
 Example C15_canonize_width_refuted : exists e rho, eval rho (fun _ => 0) (fun _ _ => 0) (canonize e) <> eval rho (fun _ => 0) (fun _ _ => 0) e.
